@@ -3,7 +3,7 @@ from . import _world
 
 replay = _world.replay
 W = {"agents_at": 0, "pick": 0, "shuffle": 0, "get_agents": 1, "lookup": 8, "join": 12, "leave": 8, "move": 0, "move_to": 0,
-     "attach": 3, "detach": 1}
+     "attach": 8, "detach": 1}
 
 
 def probe(op, kinds, homes, n):
